@@ -74,6 +74,8 @@ func c15Observe(e *c15Entry, idx int, deep bool, when string) error {
 	if err != nil || !bytes.Equal(pub.SerializeCompressed(), e.r.pubBytes()) {
 		return fmt.Errorf("%s: ECPubKey() = %v (err %v), want %x", where, pub, err, e.r.pubBytes())
 	}
+	pub.Y.Neg(pub.Y) // the point handed out is the caller's: what is done to it shows in no later answer of the key
+	pub.X.SetInt64(1)
 	if e.r.Priv != nil {
 		priv, err := e.k.ECPrivKey()
 		if err != nil || priv.D.Cmp(e.r.Priv) != 0 {
